@@ -11,6 +11,10 @@ package main
 //   runcmd_returned        the keys of the returned map with the *source* of every value
 //                          ("wait-exit-code", "stdout-capture", "stderr-capture", "unknown:…")
 //   waiterr_default / waiterr_on_nil / waiterr_on_exiterror    shape of waitErrToExitCode
+//   runcmd_other_cmd_fields  every other field of the exec.Cmd that RunCommand sets (WaitDelay, Env, Cancel, …):
+//                          the model knows none, so the list must be empty
+//   intotorun_cmdargs_calls  the calls inside InTotoRun that receive its cmdArgs parameter, in source order
+//                          (the model: only the len() guard and RunCommand(cmdArgs, runDir))
 //
 // Classification of the strategy:
 //   Concurrent  cmd.Stdout and cmd.Stderr are assigned the addresses of two distinct local
@@ -89,6 +93,8 @@ type rcFacts struct {
 	wnil           string
 	wexiterr       string
 	foundRun, foundWait bool
+	otherFields    []string // cmd.<Field> = … other than Stdout/Stderr/Dir
+	runCmdArgsCalls []string // calls in InTotoRun that receive cmdArgs
 }
 
 func genRunCmd(repo string) (string, error) {
@@ -97,6 +103,7 @@ func genRunCmd(repo string) (string, error) {
 		return "", err
 	}
 	var run, wait *ast.FuncDecl
+	var F rcFacts
 	for _, f := range files {
 		for _, d := range f.Decls {
 			if fd, ok := d.(*ast.FuncDecl); ok && fd.Recv == nil && fd.Body != nil {
@@ -105,11 +112,12 @@ func genRunCmd(repo string) (string, error) {
 					run = fd
 				case "waitErrToExitCode":
 					wait = fd
+				case "InTotoRun":
+					analyseInTotoRun(fset, fd, &F)
 				}
 			}
 		}
 	}
-	var F rcFacts
 	F.strategy = "Unknown"
 	F.wdefault, F.wnil, F.wexiterr = "None", "None", "ExUnknown"
 	note := func(f string, a ...any) { F.notes = append(F.notes, fmt.Sprintf(f, a...)) }
@@ -153,6 +161,8 @@ func genRunCmd(repo string) (string, error) {
 	} else {
 		fmt.Fprintf(&sb, "Definition runcmd_returned : list (str * str) :=\n  [%s].\n", strings.Join(items, ";\n   "))
 	}
+	fmt.Fprintf(&sb, "Definition runcmd_other_cmd_fields : list str := %s.\n", coqStrList(F.otherFields))
+	fmt.Fprintf(&sb, "Definition intotorun_cmdargs_calls : list str := %s.\n", coqStrList(F.runCmdArgsCalls))
 	fmt.Fprintf(&sb, "Definition waiterr_default : option Z := %s.\n", F.wdefault)
 	fmt.Fprintf(&sb, "Definition waiterr_on_nil : option Z := %s.\n", F.wnil)
 	fmt.Fprintf(&sb, "Definition waiterr_on_exiterror : exiterr_rule := %s.\n", F.wexiterr)
@@ -314,6 +324,21 @@ func analyseRunCommand(fset *token.FileSet, fd *ast.FuncDecl, F *rcFacts, note f
 			}
 		}
 	}
+	// every assignment to a field of the command other than Stdout/Stderr/Dir, anywhere in the body
+	ast.Inspect(fd.Body, func(n ast.Node) bool {
+		if a, ok := n.(*ast.AssignStmt); ok {
+			for _, l := range a.Lhs {
+				if se, ok := l.(*ast.SelectorExpr); ok && cmdVar != "" && identName(se.X) == cmdVar {
+					switch se.Sel.Name {
+					case "Stdout", "Stderr", "Dir":
+					default:
+						F.otherFields = append(F.otherFields, se.Sel.Name)
+					}
+				}
+			}
+		}
+		return true
+	})
 	// any other mention of StdoutPipe/StderrPipe/CombinedOutput/Output anywhere
 	ast.Inspect(fd.Body, func(n ast.Node) bool {
 		if se, ok := n.(*ast.SelectorExpr); ok && identName(se.X) == cmdVar {
@@ -460,4 +485,40 @@ func analyseWaitErr(fset *token.FileSet, fd *ast.FuncDecl, F *rcFacts, note func
 			}
 		}
 	}
+}
+
+// analyseInTotoRun lists, in source order, the calls in InTotoRun one of whose arguments mentions the
+// command-arguments parameter (the 5th: cmdArgs)
+func analyseInTotoRun(fset *token.FileSet, fd *ast.FuncDecl, F *rcFacts) {
+	var params []string
+	for _, p := range fd.Type.Params.List {
+		for _, n := range p.Names {
+			params = append(params, n.Name)
+		}
+	}
+	if len(params) < 5 {
+		F.runCmdArgsCalls = []string{"unexpected signature"}
+		return
+	}
+	argsP := params[4]
+	ast.Inspect(fd.Body, func(n ast.Node) bool {
+		c, ok := n.(*ast.CallExpr)
+		if !ok {
+			return true
+		}
+		for _, a := range c.Args {
+			uses := false
+			ast.Inspect(a, func(m ast.Node) bool {
+				if id, ok := m.(*ast.Ident); ok && id.Name == argsP {
+					uses = true
+				}
+				return true
+			})
+			if uses {
+				F.runCmdArgsCalls = append(F.runCmdArgsCalls, exprStr(fset, c))
+				break
+			}
+		}
+		return true
+	})
 }
